@@ -159,8 +159,6 @@ Proof.
   rewrite H in F. exact F.
 Qed.
 
-Lemma quot_nanos : forall prev, 0 <= prev -> Z.quot prev nanos = prev / nanos.
-Proof. intros prev H. apply Z.quot_div_nonneg; [exact H | unfold nanos; lia]. Qed.
 
 Section Sound.
   Variable f : fields.
@@ -223,7 +221,7 @@ Section Sound.
   Theorem nft_zone_sound : forall prev ns, 0 <= prev <= max_nanos ->
     next_fire_time_zone f z prev = Fire ns -> fire_ok prev ns.
   Proof.
-    intros prev ns Hp H. unfold next_fire_time_zone in H. rewrite quot_nanos in H by lia.
+    intros prev ns Hp H. unfold next_fire_time_zone in H.
     unfold max_nanos in Hp. change Params.max_int64 with 9223372036854775807 in Hp.
     assert (Hps : 0 <= prev / nanos <= 9223372036) by (unfold nanos; lia).
     destruct (civil_from_unix (offset_at z (prev / nanos)) (prev / nanos)) as [w0|] eqn:E0; [|discriminate].
@@ -294,7 +292,7 @@ Section Total.
 
   Theorem nft_zone_total : forall prev, 0 <= prev <= max_nanos -> next_fire_time_zone f z prev <> ModelError.
   Proof.
-    intros prev Hp H. unfold next_fire_time_zone in H. rewrite quot_nanos in H by lia.
+    intros prev Hp H. unfold next_fire_time_zone in H.
     unfold max_nanos in Hp. change Params.max_int64 with 9223372036854775807 in Hp.
     assert (Hps : 0 <= prev / nanos <= 9223372036) by (unfold nanos; lia).
     destruct (civil_from_unix_total _ _ (Hz (prev / nanos)) Hps) as [w0 E0]. rewrite E0 in H.
@@ -361,7 +359,7 @@ Section Fixed.
                     if max_nanos <? t * nanos then Expired else Fire (t * nanos)
       end.
   Proof.
-    intros prev w0 Hp E0. unfold next_fire_time, next_fire_time_zone. rewrite quot_nanos by lia.
+    intros prev w0 Hp E0. unfold next_fire_time, next_fire_time_zone.
     change (offset_at (fixed_zone off) (prev / nanos)) with off. rewrite E0.
     unfold max_nanos in Hp. change Params.max_int64 with 9223372036854775807 in Hp.
     assert (Hps : 0 <= prev / nanos <= 9223372036) by (unfold nanos; lia).
